@@ -81,7 +81,7 @@ def worker(wid, scratch, queue, tier, results, lock):
 
 def main():
     args = sys.argv[1:]
-    tier, jobs, scratch, names = "quick", 6, "/tmp/seedpar", []
+    tier, jobs, scratch, names = "quick", 6, f"/tmp/seedpar-{os.getpid()}", []
     while args:
         a = args.pop(0)
         if a == "--tier":
